@@ -434,10 +434,17 @@ fn s_lookup(cfg: &SCfg, j: usize, which: u8) {
             }
         }
         _ => {
-            if j < cfg.n {
-                let got = b.is_expired_entry(st.ent[j].as_ref().unwrap());
-                assert!(got == hidden, "C16,C01,C05,C06,C07: iteration filter is_expired_entry != (expired or invalidated)");
+            // through the real iterator (src/sync/iter.rs over the map model): key j is yielded iff live, once
+            let mut it = b.iter();
+            let mut seen = 0u32;
+            let mut i = 0;
+            while i < MAXN {
+                if let Some(r) = it.next() { if *r.key() == key { seen += 1; assert!(*r.value() == st.g.v[j], "C16,C01: iteration yields a value other than the latest insert"); } }
+                i += 1;
             }
+            drop(it);
+            assert!(seen <= 1, "C16: iteration yields an entry twice");
+            assert!((seen == 1) == !hidden, "C16,C01,C05,C06,C07: iteration filter is_expired_entry != (expired or invalidated): iteration must yield exactly the live entries");
         }
     }
     let (r, w, rm) = b.inner.cache.verif_stats();
